@@ -35,6 +35,15 @@
 //	        0.0.0 / v0.0.0 / 0.0.0+build), every list of <= 4 / <= 5 events, every spelling, every
 //	        permutation; queried with b1, b2, every spelling of zero INCLUDING the literal "0"
 //	        (Maven, PyPI), and versions around 1.0.0 / 2.0.0
+//	phase J record ecosystems: for every ecosystem X, entries whose ecosystem string is X, another
+//	        known ecosystem, X + ":suffix" ("Maven:https://repo...", "npm:", "PyPI:x", "X:12"),
+//	        other letter case, padded, truncated, empty, unknown; alone and next to an exact-X entry
+//	        in both orders; x every probe x {match-everything, versions-only, every range of <= 2 events}
+//	phase K (phasek.go) the per-entry decision inside remediation.MatchVuln's severity filter, driven
+//	        through VerifResolveManifest on a one-package universe (npm, Maven): two-entry records
+//	        with per-entry severities where exactly one entry applies (listed, or in range while a
+//	        versions list that omits the version is present, ...), every range of <= 2 events,
+//	        every pinned version of the ladder and gaps, both entry orders, both severity assignments
 //	phase I the signature zone: per ecosystem a ladder whose ORDER only that ecosystem defines that way
 //	        (npm 1.0.0-1 < 1.0.0-rc.1 < 1.0.0 < 1.0.2; Maven 1.0.0-rc1 < 1.0.0 < 1.0.0-sp1 < 1.0.2;
 //	        PyPI 1.0.0.dev1 < 1.0.0rc1 < 1.0.0 < 1.0.0.post1 < 1.0.2), every list, every permutation,
@@ -90,13 +99,18 @@
 //     name, queried name) pairs, counted in dont_care_skipped. npm and Maven define no such
 //     equivalence: there any byte-wise difference (case, '-' vs '_' vs '.') is another package and
 //     must not match. Byte-identical names must match everywhere.
-//   - ecosystem strings with a ":suffix" (decoys use the three plain ecosystem names).
+//   - the record ecosystem "Maven:https://repo.maven.apache.org/maven2" (the OSV schema says an
+//     omitted Maven suffix means Maven Central, so it arguably equals plain "Maven"): not generated.
+//     Every other ecosystem string that is not byte-identical to the package's ecosystem — other
+//     ":suffix" forms, other letter case, padded, empty, unknown — is another ecosystem and must
+//     not match (phase J); nothing on HEAD documents any of them as equal.
 package main
 
 import (
 	"encoding/json"
 	"fmt"
 	"os"
+	"path/filepath"
 	"runtime"
 	"sort"
 	"strconv"
@@ -127,6 +141,7 @@ type rAffected struct {
 	Name      string   `json:"name"`
 	Versions  []string `json:"versions,omitempty"`
 	Ranges    []rRange `json:"ranges,omitempty"`
+	Severity  string   `json:"severity,omitempty"` // phase K only: "high" (9.8) / "low" (1.8)
 }
 
 type rCase struct {
@@ -811,6 +826,7 @@ func nameKey(eco, n string) string {
 
 type stats struct {
 	evals, affected, notAffected, skipped int64
+	kTrouble                              int64                   // phase K cases that could not be evaluated (universe did not resolve)
 	vuln                                  osvschema.Vulnerability // scratch record, reused for every case of a work item
 	viols                                 []*vrec                 // mismatches of this work item, first example per cause key
 }
@@ -839,10 +855,11 @@ var (
 	gPermLists                        atomic.Int64
 	gSpelledLists                     atomic.Int64
 	gZoneLists                        atomic.Int64
-	gPhaseEvals                       [11]atomic.Int64 // A, B, C1, C2, D, D0, E, F, G, H, I
+	gKTrouble                         atomic.Int64
+	gPhaseEvals                       [13]atomic.Int64 // A, B, C1, C2, D, D0, E, F, G, H, I, J, K
 )
 
-var phaseNames = []string{"A", "B", "C1", "C2", "D", "D0", "E", "F", "G", "H", "I"}
+var phaseNames = []string{"A", "B", "C1", "C2", "D", "D0", "E", "F", "G", "H", "I", "J", "K"}
 
 func safeCall(v *osvschema.Vulnerability, pkg *extractor.Package) (got bool, panicked any, stack string) {
 	defer func() {
@@ -1067,6 +1084,7 @@ func (st *stats) flush(r *ev.Run, distinct int64) {
 	gAffected.Add(st.affected)
 	gNotAffected.Add(st.notAffected)
 	gSkipped.Add(st.skipped)
+	gKTrouble.Add(st.kTrouble)
 }
 
 // ---------------------------------------------------------------------------
@@ -1166,6 +1184,12 @@ func main() {
 	for _, e := range ecos {
 		items = append(items, workItem{"D0", e, nil, 0})
 		items = append(items, workItem{"G", e, nil, 0})
+		items = append(items, workItem{"J", e, nil, 0})
+		if e.osv != "PyPI" { // the universe kit writes package.json and pom.xml manifests
+			for vi := range kVersions {
+				items = append(items, workItem{"K", e, nil, vi})
+			}
+		}
 		for qn := range e.names {
 			items = append(items, workItem{"H", e, nil, qn})
 		}
@@ -1247,6 +1271,7 @@ func main() {
 		}
 	}
 
+	kdir := kWorkDir()
 	itemViols := make([][]*vrec, len(items))
 	done := r.ParallelFor(len(items), func(k int) {
 		it := items[order[k]]
@@ -1507,6 +1532,58 @@ func main() {
 					break
 				}
 			}
+		case "K":
+			env, err := newKEnv(e, kVersions[it.qn], filepath.Join(kdir, fmt.Sprintf("%s-%d", e.osv, it.qn)))
+			if err != nil {
+				fmt.Fprintln(os.Stderr, "C18 harness error: phase K setup:", err)
+				os.Exit(3)
+			}
+			var lists [][]rEvent
+			for _, s2 := range seconds {
+				if s2.pidx == 0 || r.Thorough() {
+					lists = append(lists, s2.evs)
+				}
+			}
+			distinct += runPhaseK(env, lists, &st)
+		case "J":
+			// record ecosystems: the exact string counts; every other string never does — another
+			// known ecosystem, the exact string plus a ":suffix" (release / repository of ANOTHER
+			// package universe), another letter case (OSV ecosystem names are case-sensitive),
+			// padded, empty, unknown. Only "Maven:<Maven Central URL>" is a don't-care: the OSV
+			// schema says an omitted suffix means Maven Central, so it arguably denotes plain Maven.
+			all := rg("ECOSYSTEM", []rEvent{{Introduced: "0"}})
+			var recEcos []string
+			for _, o := range ecos {
+				x := o.osv
+				recEcos = append(recEcos, x, x+":", x+":x", x+":https://repo.example.org/releases", x+":12", x+": ", " "+x, x+" ",
+					strings.ToLower(x), strings.ToUpper(x), strings.ToUpper(x[:1])+strings.ToLower(x[1:]), x+"x", x[:len(x)-1])
+			}
+			recEcos = append(recEcos, "", ":", "unknown", "crates.io", "Go", "Debian:12", "maven:https://repo.example.org", "Maven:https://maven.google.com")
+			seenEco := map[string]bool{}
+			for _, re := range recEcos {
+				if seenEco[re] || re == "Maven:https://repo.maven.apache.org/maven2" {
+					continue
+				}
+				seenEco[re] = true
+				for pi, pv := range e.probes {
+					one := func(aff ...osvschema.Affected) {
+						x.check(mk("J", pi, aff...), e, pi, &st)
+						distinct++
+					}
+					one(entry(re, e.name, []string{pv}, all))
+					one(entry(re, e.name, []string{pv}))
+					for _, s2 := range seconds {
+						if s2.pidx != 0 {
+							continue
+						}
+						one(entry(re, e.name, nil, rg("ECOSYSTEM", s2.evs)))
+						if re != e.osv {
+							one(entry(re, e.name, []string{pv}, all), own(nil, rg("ECOSYSTEM", s2.evs)))
+							one(own(nil, rg("ECOSYSTEM", s2.evs)), entry(re, e.name, []string{pv}, all))
+						}
+					}
+				}
+			}
 		case "H":
 			// package names: the queried package is named q; record entries are named r, for every
 			// r of the alphabet. r == q byte-for-byte: the entry counts. nameKey(r) != nameKey(q)
@@ -1661,6 +1738,7 @@ func main() {
 		}
 		itemViols[order[k]] = st.viols
 	})
+	os.RemoveAll(kdir)
 	for _, vs := range itemViols { // canonical work-item order
 		for _, v := range vs {
 			for i := 0; i < v.n; i++ {
@@ -1694,6 +1772,7 @@ func main() {
 	r.Set("verdict_affected", gAffected.Load())
 	r.Set("verdict_not_affected", gNotAffected.Load())
 	r.Set("dont_care_skipped", gSkipped.Load())
+	r.Set("phaseK_unevaluable_cases", gKTrouble.Load())
 	r.Set("work_items", map[string]int{"total": len(items), "completed": done})
 	r.Assume("ladder and probe versions are plain dotted integers whose order is the same under semver, Maven and PEP 440; the reference comparison is a 3-integer compare")
 	r.Assume("records are handed to IsAffected as osvschema structs (no JSON decoding step in between)")
@@ -1727,6 +1806,9 @@ func replay(file string) int {
 	if eco == nil {
 		fmt.Fprintf(os.Stderr, "replay: unknown ecosystem %q\n", c.Ecosystem)
 		return 3
+	}
+	if c.Phase == "K" {
+		return replayK(c, eco)
 	}
 	// every version in the record must be one the reference comparison understands
 	if !known(c.Version) && !decidableWithoutOrder(c) {
